@@ -1,5 +1,5 @@
 """C12 Containment: surround encloses, inside is enclosed (DESIGN.md §5, Appendix A)."""
-import itertools, random
+import re, itertools, random
 from fractions import Fraction
 from vlib.engine import *  # noqa
 from vlib import geom as G
@@ -118,6 +118,16 @@ def templates(tier, seed):
         for refs in triples:
             for mg in ("none", "a1", "a4", "p25"):
                 tds.append(dict(fam="inside", cont=cont, refs=list(refs), mg=mg, order="after"))
+    # the listed elements are themselves waiting for a later element (the container is written first and retried): the
+    # references keep their longhand sizes and are placed relative to an anchor that comes last
+    for fam_ in ("surround", "inside"):
+        for cont in ("rect", "circle", "ellipse"):
+            for refs in (["rect"], ["circle"], ["ellipse"], ["rect", "circle"], ["ellipse", "ellipse"], ["circle", "rect", "ellipse"]):
+                if fam_ == "inside" and cont != "rect" and any(r != "rect" for r in refs) and len(refs) > 1:
+                    continue
+                for mg in ("none", "a1", "p25"):
+                    for order in ("held-before", "held-mid"):
+                        tds.append(dict(fam=fam_, cont=cont, refs=list(refs), mg=mg, order=order))
     tds.append(dict(fam="both", cont="rect", refs=["rect"], mg="none", order="after"))
     return tds
 
@@ -146,7 +156,22 @@ def build(td, wrong=False):
         return Template("both", doc, vars_, check_both, family="misuse", role="C12/both")
     attr = "surround" if fam == "surround" else "inside"
     cm = f'<{cont} id="c" {attr}="{reflist}"{mtxt}/>'
-    doc = "<svg>" + ("".join(parts) + cm if td["order"] == "after" else cm + "".join(parts)) + "</svg>"
+    if td["order"].startswith("held"):
+        # same boxes, written relative to an anchor at the origin that comes last; sizes in longhand so that the pending
+        # references look measurable
+        held = []
+        for m in parts:
+            m = m.replace(' xy="[[', ' xy="#anchor@tl [[').replace(' cxy="[[', ' cxy="#anchor@tl [[')
+            m = re.sub(r' wh="(\[\[\d+\]\]) (\[\[\d+\]\])"', r' width="\1" height="\2"', m)
+            m = re.sub(r' rxy="(\[\[\d+\]\]) (\[\[\d+\]\])"', r' rx="\1" ry="\2"', m)
+            held.append(m)
+        anchor = '<rect id="anchor" x="0" y="0" width="0" height="0"/>'
+        if td["order"] == "held-before":
+            doc = "<svg>" + cm + "".join(held) + anchor + "</svg>"
+        else:
+            doc = "<svg>" + held[0] + cm + "".join(held[1:]) + anchor + "</svg>"
+    else:
+        doc = "<svg>" + ("".join(parts) + cm if td["order"] == "after" else cm + "".join(parts)) + "</svg>"
     W = "1.0" if wrong else "0.0"
 
     def check(r):
@@ -226,6 +251,8 @@ def build(td, wrong=False):
         tol = "0.002"
         mode = "real" if any(k != "rect" for k in td["refs"]) and cont == "rect" else "int"
         fits_margin = and_(le(Ib.x1, Ib.x2), le(Ib.y1, Ib.y2))
+        # an element that lies within an area is a proper box
+        obls.append(Obl("inside-proper-box", and_(nonempty, fits_margin, or_(lt(cb.w, "0.0"), lt(cb.h, "0.0"))), mode=mode))
         for name, cnd in (("left", lt(cb.x1, minus(Ib.x1, tol))), ("top", lt(cb.y1, minus(Ib.y1, tol))), ("right", gt(cb.x2, plus(Ib.x2, tol))), ("bottom", gt(cb.y2, plus(Ib.y2, tol)))):
             obls.append(Obl(f"inside-{name}", and_(nonempty, fits_margin, cnd), mode=mode))
         return obls
